@@ -29,7 +29,8 @@ SPEC = dict(
           "the connection when it is done while the other side's readers lag), link chunking (whole | fragment | 1-3 bytes), 1-4 streams, "
           "per (stream, direction) 0-5 writes with sizes biased to 0, 1, 65518-65520, 65535-65537, 2x and 3x+1 Noise frames, the yamux "
           "window and the yamux-frame = Noise-frame edge, and a cycle of read-buffer sizes biased to 1, 2, 15-17, pending frame -17..+1, "
-          "64Ki+-1, 1Mi with 0-64 bytes of spare capacity; per raw endpoint whether the final bytes arrive together with io.EOF; on "
+          "64Ki+-1, 1Mi with 0-64 bytes of spare capacity; zero-length buffers in the cycle; on bare connections optionally a second writer task per direction (payload keyed per write, "
+          "any order of whole writes accepted); per raw endpoint whether the final bytes arrive together with io.EOF; on "
           "Noise-based layers a prelude of 0-3 sacrificial Noise sessions closed with queued plaintext, closed twice / read after Close; non-trivial = a fault fired or at least two Reads returned data; distinct = "
           "distinct (scheduler decision hash, per-channel planned/accepted/delivered/read-count/end state)"),
     probes=["noise-in-place", "noise-pooled-whole-frame", "noise-pooled-partial", "noise-queued-remainder",
@@ -38,6 +39,7 @@ SPEC = dict(
             "write-reaching-yamux-window",
             "layer-noise", "layer-tls", "layer-pnet", "layer-mux-noise", "layer-mux-tls", "layer-host-noise", "layer-host-tls",
             "stratum-clean", "stratum-timing", "stratum-stall", "stratum-adversary", "stratum-peer-close",
+            "two-writers-on-one-connection", "zero-length-read", "zero-length-read-inside-a-frame",
             "final-bytes-and-eof-in-one-read", "session-closed-with-queued-plaintext", "session-closed-twice",
             "read-after-close-returned-queued-bytes",
             "observation:read-deadline-expired-mid-frame/noise", "observation:read-deadline-expired-mid-frame/pnet"],
